@@ -183,6 +183,10 @@ func (mc *Chain) processVerifyBlock(ctx context.Context, b *block.Block) error {
 		return nil
 	}
 
+	// The tickets a proposal arrives with were collected by its sender and nobody
+	// verified them yet; they must not count towards notarization unverified.
+	mc.dropUnverifiedTickets(ctx, b)
+
 	// get previous block notarization tickets, and update local prev block if exist
 	if b.Round > 1 {
 		go func() {
@@ -272,6 +276,39 @@ func (mc *Chain) processVerifyBlock(ctx context.Context, b *block.Block) error {
 
 	mc.checkBlockNotarization(ctx, mr, b, true)
 	return nil
+}
+
+// dropUnverifiedTickets keeps the verification tickets a received block carries
+// only if they are from distinct miners of the block's round and all of them are
+// valid signatures on the block hash; otherwise the block continues without them.
+func (mc *Chain) dropUnverifiedTickets(ctx context.Context, b *block.Block) {
+	bvts := b.GetVerificationTickets()
+	if len(bvts) == 0 {
+		return
+	}
+
+	seen := make(map[string]struct{}, len(bvts))
+	for _, vt := range bvts {
+		if vt == nil {
+			b.SetVerificationTickets(nil)
+			return
+		}
+		if _, ok := seen[vt.VerifierID]; ok {
+			logging.Logger.Error("verify block - duplicate ticket in received block, ignore its tickets",
+				zap.Int64("round", b.Round), zap.String("block", b.Hash))
+			b.SetVerificationTickets(nil)
+			return
+		}
+		seen[vt.VerifierID] = struct{}{}
+	}
+
+	cctx, cancel := context.WithTimeout(ctx, time.Second)
+	defer cancel()
+	if err := mc.VerifyTickets(cctx, b.Hash, bvts, b.Round); err != nil {
+		logging.Logger.Error("verify block - invalid ticket in received block, ignore its tickets",
+			zap.Int64("round", b.Round), zap.String("block", b.Hash), zap.Error(err))
+		b.SetVerificationTickets(nil)
+	}
 }
 
 // handleVerificationTicketMessage - handles the verification ticket message.
